@@ -280,19 +280,16 @@ Definition stack_results (rets : list (option (tree A))) : res (list (tree A)) :
          else Ok (flat_map (fun r => match r with Some t => [t] | None => [] end) rets)
   end.
 
-(* DEFECT C20-h: _multithread_rebuild does not look inside a tensorclass that wraps a lazy stack (as _apply_nest does since
-   the repair of C20-e): out= a lazily stacked tensorclass is refused by the thread-pool form only.
-   [fixh] = the repair fixes/C20/C20-h.diff is present in the tree under test (the harness reads it off the source of
-   _multithread_rebuild): the check follows the code before and after the repair lands. *)
-Definition mt_out (fixh : bool) (out : option lout) : res (option (list (tree A))) :=
+(* out= of the rebuild: a lazily stacked tensorclass is looked into, as in _apply_nest (repair of C20-h, /repo 33dddbd;
+   before it the thread-pool form refused it with ValueError) *)
+Definition mt_out (out : option lout) : res (option (list (tree A))) :=
   match out with
   | None => Ok None
-  | Some (OutLazy false ms) => Ok (Some ms)
-  | Some (OutLazy true ms) => if fixh then Ok (Some ms) else Raised EValue
+  | Some (OutLazy _ ms) => Ok (Some ms)
   | Some OutOther => Raised EValue
   end.
 
-Definition lz_mt_nest (fixh con : bool) (self : lstack) (others : list operand) (out : option lout) (names : option dnames)
+Definition lz_mt_nest (con : bool) (self : lstack) (others : list operand) (out : option lout) (names : option dnames)
            (pi : list nat) : mres lres :=
   match l_members self with
   | [] => MUnmodelled
@@ -305,7 +302,7 @@ Definition lz_mt_nest (fixh con : bool) (self : lstack) (others : list operand) 
       let log := run_tasks A fn (fst tl1) pi in
       if refuse_inplace names then MRaised EValue
       else
-        mbind (of_res (mt_out fixh out)) (fun outs =>
+        mbind (of_res (mt_out out)) (fun outs =>
         mbind (rebuild_members log (l_members self) (snd tl1) outs) (fun rs =>
         let rets := map snd rs in
         if fe_drops && forallb is_none rets then MOk LRNone
@@ -317,8 +314,8 @@ Definition lz_mt_nest (fixh con : bool) (self : lstack) (others : list operand) 
                 (fun st => of_res (finish_names names (Some st)))))))
   end
   end.
-Definition lz_mt_front (fixh con propagate : bool) (self : lstack) (others : list operand) (out : option lout)
+Definition lz_mt_front (con propagate : bool) (self : lstack) (others : list operand) (out : option lout)
            (names : option dnames) (pi : list nat) : mres lres :=
-  mbind (lz_mt_nest fixh con self others out names pi) (fun r => MOk (lock_result propagate self r)).
+  mbind (lz_mt_nest con self others out names pi) (fun r => MOk (lock_result propagate self r)).
 
 End Lazy.
